@@ -495,6 +495,19 @@ func (fr *frame) assertSteps(st *PState, b *ssa.BasicBlock, ord int) {
 			env.vars["prev_"+phi.Comment] = v
 		}
 	}
+	// ... and of address-taken named locals (e.g. a slice captured by a closure later in the function)
+	for _, blk := range fr.fn.Blocks {
+		for _, ins := range blk.Instrs {
+			if a, ok := ins.(*ssa.Alloc); ok && a.Comment != "" {
+				if pv, ok := snap.env[a].(*PtrVal); ok {
+					func() {
+						defer func() { recover() }()
+						env.vars["prev_"+a.Comment] = snap.LoadPtr(pv)
+					}()
+				}
+			}
+		}
+	}
 	for i, c := range steps {
 		t, err := env.TrBool(c.Expr)
 		if err != nil {
